@@ -14,6 +14,8 @@ func VerifC20Set() {
 		Put(string)
 		Exists(string) bool
 		Remove(string)
+		Length() int
+		ToArray() []string
 	}
 	if nd.Bool() {
 		s = NewConcurrentSets()
@@ -32,6 +34,11 @@ func VerifC20Set() {
 		for i := 0; i < nd.Param("OPS", 2); i++ {
 			th[t] = append(th[t], &op{kind: nd.Choose(3), key: keys[nd.Choose(2)]})
 		}
+	}
+	// optionally the first key is in the set before the goroutines start
+	pre := nd.Bool()
+	if pre {
+		s.Put(keys[0])
 	}
 	var wg sync.WaitGroup
 	wg.Add(2)
@@ -53,7 +60,7 @@ func VerifC20Set() {
 	wg.Wait()
 	// a key nobody ever put is never reported; a key put and never removed by anyone is reported afterwards
 	for _, k := range keys {
-		put, removed := false, false
+		put, removed := pre && k == keys[0], false
 		for t := 0; t < 2; t++ {
 			for _, o := range th[t] {
 				if o.key == k && o.kind == 0 {
@@ -78,5 +85,13 @@ func VerifC20Set() {
 			nd.Assert(!s.Exists(k), "C20: a key that was never put is absent afterwards")
 		}
 	}
+	// once the goroutines are done the set is quiescent: every view of its size agrees with its membership
+	present := 0
+	for _, k := range keys {
+		if s.Exists(k) {
+			present++
+		}
+	}
+	nd.Assert(s.Length() == present && len(s.ToArray()) == present, "C20: after concurrent operations the set's size agrees with its membership (no sequential order of the calls explains anything else)")
 	nd.Cover("set history checked")
 }
